@@ -3,6 +3,7 @@ import copy
 import json
 
 import gen_repo
+import go2lean_c08
 import repo_common as rc
 import vlib
 
@@ -67,6 +68,7 @@ def gen_case(rng):
 
 def run(R):
     lean_ok = vlib.step_lean(R, PID)
+    go2lean_c08.step(R)      # isUnreserved / unhex translated from the current source, proved equal to the model
     exe = vlib.step_harness(R)
     if exe is None:
         R.violation("harness does not build against /repo", {"build_log": R.harness_log[-3000:]}, no_input=True)
@@ -128,6 +130,8 @@ def run(R):
     if not lean_ok:
         R.violation("theorems of Props/C08.lean no longer check: " + "; ".join(R.lean["failed"])[:600],
                     {"lean_log": R.lean["log"], "failed": R.lean["failed"]}, no_input=True)
+    go2lean_c08.report(R, exe)
+    R.violations.sort(key=lambda v: v[2])      # the replay file carries the first violation: concrete inputs first
 
 
 replay = rc.replay
